@@ -156,7 +156,7 @@ def build(extra_mods=(), force_assumed=(), drop_ghost=(), drop_contract=(), exte
     # iso_gf (self-contained, compute-heavy) gets its own module so that it verifies in parallel; all other
     # ISO files share one module (by(compute) must see through opaque table functions, which only works
     # inside the defining module)
-    sep = [nm for nm in iso_names if nm in ('iso_gf', 'iso_synd')]
+    sep = [nm for nm in iso_names if nm in ('iso_gf', 'iso_synd', 'iso_uniq')]
     main_text = ''
     for p, nm in zip(iso_files, iso_names):
         if nm in sep:
@@ -250,7 +250,7 @@ def module_item_at(text, line):
                     mod_, start_ = mm.group(1), i + 1
                     break
             break
-    if mod_ is None or mod_ in ('iso', 'iso_gf', 'iso_synd', 'convert'):
+    if mod_ is None or mod_ in ('iso', 'iso_gf', 'iso_synd', 'iso_uniq', 'convert'):
         return None
     end_ = start_
     while end_ < len(lines) and not (lines[end_].startswith('} // @endmod') or lines[end_].startswith('// ---- ghost additions') or lines[end_].startswith('// ---- H2')):
